@@ -315,7 +315,8 @@ pub fn c06(a: &Args) {
     let thorough = a.str("tier", "quick") == "thorough";
     let full3 = a.usize("full3", if thorough { 5 } else { 4 });     // widths <= full3: every row of the 3x3x2 class
     let canon3 = a.usize("canon3", 7);                                // widths full3 < w <= canon3: canonical representatives
-    let stride7 = a.u64("stride7", if thorough { 1 } else { 16 });    // sampling stride for the canonical rows of widths >= 6
+    let stride6 = a.u64("stride6", if thorough { 1 } else { 16 });    // sampling stride for the canonical rows of width 6
+    let stride7 = a.u64("stride7", if thorough { 2 } else { 16 });    // ... and of width 7 (8.5 million representatives)
     let full2 = a.usize("full2", if thorough { 10 } else { 8 });
     let n_rnd = a.u64("random", if thorough { 2500 } else { 260 });
     let maxh = a.usize("rows-per-buffer", 200);
@@ -338,7 +339,7 @@ pub fn c06(a: &Args) {
                     enum_full(&cl, &cl.pages, w, "exh3", &mut sink, maxh, ml_every);
                     enum_full(&cl, &cl.pages[..1], w, "exh3", &mut sink, maxh, ml_every);
                 } else if w <= canon3 {
-                    let stride = if w >= 6 { stride7 } else { 1 };
+                    let stride = if w >= 7 { stride7 } else if w == 6 { stride6 } else { 1 };
                     enum_canon(&cl, &cl.pages, w, "exh3", &mut sink, maxh, ml_every, stride, seed);
                     enum_canon(&cl, &cl.pages[..1], w, "exh3", &mut sink, maxh, ml_every, 1, seed);
                 }
@@ -359,7 +360,7 @@ pub fn c06(a: &Args) {
     }
     for o in sink.outs.iter_mut() { o.flush(); }
     let summary = json!({"classes":classes,"buffers":sink.id,"exhaustive_buffers":exh_buffers,"random_buffers":n_rnd,"rows":sink.rows,
-                         "params":{"full3":full3,"canon3":canon3,"stride7":stride7,"full2":full2,"rows_per_buffer":maxh}});
+                         "params":{"full3":full3,"canon3":canon3,"stride6":stride6,"stride7":stride7,"full2":full2,"rows_per_buffer":maxh}});
     std::fs::write(format!("{prefix}-summary.json"), serde_json::to_string(&summary).unwrap()).unwrap();
     eprintln!("c06: {} classes, {} buffers ({} exhaustive, {} random), {} rows", classes, sink.id, exh_buffers, n_rnd, sink.rows.values().sum::<u64>());
 }
